@@ -59,7 +59,7 @@ class AppError(Exception):
 
 
 def BOUNDS(tier):
-    return {"max_fields": 3 if tier == "quick" else 4}
+    return {"max_fields": 3 if tier == "quick" else 5}
 
 
 def run_threads(bound, shard):
@@ -189,12 +189,14 @@ def DETERMINISM_REPLAY(case):
 def units(tier):
     out = [["thr", 1 if tier == "quick" else 2, k] for k in range(THR_SHARDS)]
     out.append(["history", 3 if tier == "quick" else 4])
-    for n in (1, 2, 3) if tier == "quick" else (1, 2, 3, 4):
+    for n in (1, 2, 3) if tier == "quick" else (1, 2, 3, 4, 5):
         for sers in itertools.product(range(6), repeat=n):
             if n >= 3 and (sers.count(4) > 1 or sers.count(5) > 1):
                 continue
-            if n == 4 and sers.count(3) + sers.count(5) > 2:
+            if n >= 4 and sers.count(3) + sers.count(5) > 2:
                 continue
+            if n == 5 and len(set(sers)) < 3:
+                continue  # five fields of at most two behaviours: covered with four
             out.append(list(sers))
     return out
 
